@@ -286,10 +286,13 @@ Fixpoint read_records (fuel : nat) (k : kind) (b : bytes) (i : N) (o : onto) : r
   end.
 
 Section Decode.
+  (* the reader of the parent section is a parameter so that an evaluation-friendly variant (read_parents_g
+     below, proved equal in Proofs/DecodeGP.v) can be plugged in; [decode] is the instance with read_parents *)
+  Variable rp : nat -> bytes -> N -> arena -> res arena.
   Variable icf : N -> N -> res N.
 
   (* ontology.rs from_bytes *)
-  Definition decode (input : bytes) : res onto :=
+  Definition decode_with (input : bytes) : res onto :=
     do bv <- bin_version input ;;
     let (b, v) := bv : bytes * bversion in
     (* builder.rs hpo_version_from_bytes *)
@@ -313,7 +316,7 @@ Section Decode.
     do len <- u32_from b start ;;
     let stop := stop + 4 + len in
     do sec <- slice b (start + 4) stop ;;
-    do a2 <- read_parents fuel sec 0 a1 ;;
+    do a2 <- rp fuel sec 0 a1 ;;
     do a3 <- connect_all (default_fuel a2) a2 ;;
     let o3 := set_arena a3 o0 in
     let start := start + len + 4 in
@@ -344,3 +347,28 @@ Section Decode.
       do o7 <- b_calculate_ic icf o6 ;; b_build_with_defaults o7
     else Err ParseBinaryError.
 End Decode.
+
+Definition decode (icf : N -> N -> res N) (input : bytes) : res onto := decode_with read_parents icf input.
+
+(* read_parents with a bounds test in front of the parent loop: when the announced number of parents
+   cannot fit into the rest of the section the loop `for _ in 0..n_parents` indexes past the end and
+   panics (add_parent_from_bytes: &bytes[idx..idx + 4]); the test returns that outcome without first
+   building the unary number [nat_of np] (up to 2^32 constructors on damaged input).
+   Proofs/DecodeGP.v: read_parents_g = read_parents, decode_g = decode. *)
+Fixpoint read_parents_g (fuel : nat) (b : bytes) (i : N) (a : arena) : res arena :=
+  match fuel with
+  | O => Fuel
+  | S f =>
+      if i =? Nlen b then Ok a
+      else
+        do np <- u32_from b i ;;
+        do term <- u32_at b (i + 4) ;;
+        if Nlen b <? i + 8 + 4 * np then Panic
+        else
+          do r <- read_parent_ids (nat_of np) b (i + 8) term a ;;
+          let (a', i') := r : arena * N in
+          read_parents_g f b i' a'
+  end.
+
+Definition decode_g (icf : N -> N -> res N) (input : bytes) : res onto := decode_with read_parents_g icf input.
+
